@@ -46,6 +46,8 @@ def base_env(bins, home=None, now=PINNED_NOW, clocklog=None, gitlog=None, gitfai
         "TZ": tz,
         "GIT_TERMINAL_PROMPT": "0",
     }
+    if os.environ.get("ZERV_VERIF_PROFILE"):        # tools/coverage.sh: instrumented build, profiles merged on line
+        env["LLVM_PROFILE_FILE"] = os.environ["ZERV_VERIF_PROFILE"]
     if now is not None and bins.get("clock"):
         env["LD_PRELOAD"] = bins["clock"]
         env["ZERV_VERIF_NOW"] = str(now)
